@@ -50,7 +50,14 @@ def project(c, ids):
         rid = c.playback.original_recording.id
         att = ids.index(rid) + 1 if rid in ids else -1
     rid = c.recording_id
-    return {'id': ids.index(rid) + 1 if rid in ids else -1, 'verdict': v, 'attached': att}
+    # results kept in the comparison (keep_results_in_comparison): the extractor's outputs of *this* recording, or nothing
+    kept = None
+    if c.expected is not None or c.actual is not None:
+        try:
+            kept = (c.expected[0] == 'rec' and c.actual[0] == 'pb' and c.expected[1] == c.actual[1]) and c.expected[1]
+        except Exception:
+            kept = -1
+    return {'id': ids.index(rid) + 1 if rid in ids else -1, 'verdict': v, 'attached': att, 'kept': kept}
 
 
 def make_functions(beh, ids, sched=None, state=None):
@@ -222,5 +229,8 @@ def expected_out(model_out, beh, keep_results):
         att = o['attached']
         if keep_results and beh[o['id'] - 1] == 'extractorRaises':
             att = 0  # the parent extracts again to keep the results and fails: the comparison carries no replay
-        out.append({'id': o['id'], 'verdict': {'Failure': 'Failure'}.get(o['verdict'], o['verdict']), 'attached': att})
+        # with keep_results the comparison carries the extracted results of this very recording, otherwise nothing
+        kept = o['id'] if (keep_results and att != 0) else None
+        out.append({'id': o['id'], 'verdict': {'Failure': 'Failure'}.get(o['verdict'], o['verdict']), 'attached': att,
+                    'kept': kept})
     return out
